@@ -13,9 +13,16 @@
    What is refuted: the property as stated (start anywhere in the first, end anywhere in the last rectangle) is
    FALSE of the faithful model and of the code: C19_refuted_loops, C19_refuted_panics — start or end on the
    bottom-right corner of a single rectangle. This is the recorded finding `router-outside-class`.
-   What is not proved: for corridors of several rectangles, that the funnel's answer is the shortest path inside
+   - TWO rectangles, the whole property inside the router's class (C19_two_rectangles_correct, Proofs/GeomTwo*.v): for
+     every pair of stacked rectangles sharing a boundary segment of positive length — all nine relative positions of
+     their sides — a start strictly inside the top edge of the first and an end strictly inside the bottom edge of the
+     second, the router returns, by symbolic evaluation of triangulation, dual graph and funnel, the straight segment
+     when it crosses the shared segment and otherwise the bend at the nearer end of the shared segment; that path is
+     inside the corridor, and no polyline inside the corridor between the same points is shorter (any inside path meets
+     the shared level inside the shared segment; distance to a fixed point is convex along a segment; real numbers).
+   What is not proved: for corridors of three or more rectangles, that the funnel's answer is the shortest path inside
    the corridor (needs the theory of taut paths in simple polygons; not mechanised). It is searched against an
-   independent visibility-graph/Dijkstra reference inside the router's class.
+   independent visibility-graph/Dijkstra reference inside the router's class, on corridors of up to 18 rectangles.
    Axioms: the three theorems about real lengths depend on the standard library's classical real-number axioms
    (ClassicalDedekindReals.sig_not_dec, sig_forall_dec, FunctionalExtensionality.functional_extensionality_dep);
    everything else is closed under the global context. *)
@@ -61,3 +68,22 @@ Print Assumptions C19_refuted_loops.
 Theorem C19_refuted_panics : shortest (10, 6)%Q (3, 0)%Q [mkRect (0, 0)%Q (10, 6)%Q] = Err (ErrIndex 63).
 Proof. exact ex_one_rect_panics. Qed.
 Print Assumptions C19_refuted_panics.
+
+(* ---------- two rectangles: the property in full inside the router's class (Proofs/GeomTwo.v, GeomTwo2.v) ---------- *)
+From Autog Require Import GeomTwo GeomTwo2.
+
+Theorem C19_two_rectangles_answer : forall r1 r2 p1 p2, two_rect_class r1 r2 p1 p2 = true ->
+  shortest p1 p2 [r1; r2] = Ok (two_rect_path r1 r2 p1 p2).
+Proof. exact shortest_two_rect. Qed.
+Print Assumptions C19_two_rectangles_answer.
+
+Theorem C19_two_rectangles_correct : forall r1 r2 p1 p2, two_rect_class r1 r2 p1 p2 = true ->
+  exists path,
+    shortest p1 p2 [r1; r2] = Ok path /\
+    hd_error path = Some p2 /\ last path p2 = p1 /\
+    path_inside [r1; r2] path = true /\
+    (forall a b p, consecutive a b path -> on_segment a b p -> in_corridor [r1; r2] p) /\
+    (forall other : list pt, hd_error other = Some p2 -> last other p2 = p1 -> polyline_inside [r1; r2] other ->
+       (RealLength.rlen path <= RealLength.rlen other)%R).
+Proof. exact two_rect_correct. Qed.
+Print Assumptions C19_two_rectangles_correct.
